@@ -20,7 +20,7 @@ set_option linter.unusedVariables false
 open Finset BigOperators
 
 namespace GT.C04
-open GT ND
+open GT GT.Act GT.Act.ND
 
 variable {K : Type} [Field K] [Inhabited K]
 
